@@ -20,8 +20,8 @@ FRAGMENT = {
                'a match now, highlight spells a match) plus termination. NOT from the statement: completeness is waived for regular expressions whose symbols '
                'overlap (ure.c first-transition automaton, reported as a suspected defect)',
  'design_ref': 'DESIGN.md section 6 (C17), section 8 rows 4-5',
- 'rule': 'one evaluation = one simulated run: 0-14 page transmissions from a carousel of 1-8 page numbers (0-23 rows from the alphabet "AB ab.+" with '
-         'colour / double width / double height / double size attributes, erase or update), 1-3 search contexts of 1-16 vbi_search_next calls with '
+ 'rule': 'one evaluation = one simulated run: 0-15 page transmissions from a carousel of 1-8 page numbers (0-23 rows from the alphabet "AB ab.+" with '
+         'colour / double width / double height / double size attributes, erase or update), 1-3 search contexts of 1-24 vbi_search_next calls with '
          'direction changes and an optional cancelling progress callback; 60% static cache (strict order/completeness oracle), 40% interleaved with the '
          'broadcaster packet by packet by the seeded scheduler; non-trivial = at least one page found, at least one pass ended with not-found and at '
          'least 2 pages cached; distinct = distinct event-log hash',
